@@ -423,7 +423,19 @@ func (r *c13Run) run() {
 			}
 		case x < 32: // add delegate (re-bond if slashed)
 			if found && !m.removed {
-				r.addDelegate(i, rec, chain.FX(int64(1+rng.IntN(5000))))
+				extra := chain.FX(int64(1 + rng.IntN(5000)))
+				if rng.IntN(5) == 0 {
+					// up to the configured maximum exactly, one unit beyond it, or well beyond it with a request
+					// that is itself below the maximum
+					thr := r.b.K.GetOracleDelegateThreshold(c.Ctx).Amount
+					room := thr.MulRaw(r.b.K.GetOracleDelegateMultiple(c.Ctx)).Sub(rec.DelegateAmount)
+					if room.IsPositive() {
+						extra = []sdkmath.Int{room, room.AddRaw(1), room.Add(thr)}[rng.IntN(3)]
+						fix.Fund(c, r.os[i].o.Oracle.Acc(), sdk.NewCoin(fxtypes.DefaultDenom, extra.Add(rec.GetSlashAmount(r.b.K.GetSlashFraction(c.Ctx)))))
+						r.res.Count("add_delegates_at_the_maximum", 1)
+					}
+				}
+				r.addDelegate(i, rec, extra)
 			}
 		case x < 38: // hostile duplicates: same bridger / external address for another oracle
 			j := spec.N + rng.IntN(2)
